@@ -6,6 +6,7 @@ import Pi2.Gen.MMConv
 import Pi2.MM.ConvCompose
 import Pi2.MM.ConvShape
 import Pi2.KDefTie
+import Pi2.KoreModule
 /-!
 # `pi2gen` — a second driver, for requests that evaluate GENERATED code (`Pi2/Gen/*`, regenerated from /repo on every run)
 
@@ -227,6 +228,9 @@ def handle (line : String) : String :=
       match mdbOfSexp db, strOfHexAtom target with
       | some mdb, some t => mmconvRun mdb t
       | _, _ => "bad-request"
+    | "kimports", [] =>
+      -- the axioms of the modules `ExecutionProofExp` imports, as `Pi2/KoreModule.lean` transcribes them (fully expanded)
+      "(kimports " ++ " ".intercalate ((PModule.gammaAxioms.gammaList KMod.kImports).map fun a => patToStr a.expand) ++ ")"
     | "kdef", [d] =>
       match kdefOfSexp d with
       | some d => kdefRun d
